@@ -430,11 +430,238 @@ theorem removeBody_step (body b : List Event) (key : Bytes) (h : removeBody body
     rw [comments_flatten _ hok', comments_flatten _ hok]
     simp [List.flatMap_append, h1.2, h2.2, itemComments]
 
-/-- the calls covered by the body-level invariants (everything but `set_existing_raw_value`, whose
-`ValueMut` computes its range with a second, forward scan that is not characterised here) -/
-def Op.inScope : Op → Bool
-  | .setExisting _ _ _ _ => false
-  | _ => true
+/-- events paired with their indices, starting at `o` -/
+def idxFrom (o : Nat) (l : List Event) : List (Nat × Event) := (List.range' o l.length).zip l
+
+theorem indexed_eq_idxFrom (l : List Event) : indexed l = idxFrom 0 l := by
+  unfold indexed idxFrom; rw [List.range_eq_range']
+
+theorem idxFrom_cons (o : Nat) (e : Event) (l : List Event) : idxFrom o (e :: l) = (o, e) :: idxFrom (o + 1) l := by
+  simp [idxFrom, List.range'_succ]
+
+theorem idxFrom_nil (o : Nat) : idxFrom o [] = [] := rfl
+
+theorem idxFrom_append (o : Nat) (a b : List Event) : idxFrom o (a ++ b) = idxFrom o a ++ idxFrom (o + a.length) b := by
+  induction a generalizing o with
+  | nil => simp [idxFrom_nil]
+  | cons e t ih =>
+    simp only [List.cons_append, idxFrom_cons, ih, List.length_cons]
+    congr 3; omega
+
+theorem mutRange_mid (key : Bytes) : ∀ (m : List Event) (o : Nat) (rest : List (Nat × Event)) (found : Bool) (idx size : Nat),
+    m.all isMid = true →
+    mutRange key (idxFrom o m ++ rest) found idx size =
+      mutRange key rest found idx (if found then size + m.length else size) := by
+  intro m
+  induction m with
+  | nil => intro o rest found idx size _; cases found <;> simp [idxFrom_nil]
+  | cons e m ih =>
+    intro o rest found idx size h
+    simp only [List.all_cons, Bool.and_eq_true] at h
+    obtain ⟨h1, h2⟩ := h
+    rw [idxFrom_cons, List.cons_append]
+    cases e <;> simp [isMid, evIsWs] at h1
+    all_goals
+      simp only [mutRange]
+      rw [ih (o + 1) rest found idx _ h2]
+      cases found
+      · simp
+      · simp only [↓reduceIte, List.length_cons]
+        congr 1; omega
+
+theorem mutRange_cont (key : Bytes) : ∀ (r : List Event) (o : Nat) (rest : List (Nat × Event)) (found : Bool) (idx size : Nat),
+    contOk r = true →
+    mutRange key (idxFrom o r ++ rest) found idx size =
+      mutRange key rest false idx (if found then size + r.length else size) := by
+  intro r
+  fun_induction contOk r
+  · intro o rest found idx size _
+    rw [idxFrom_cons, idxFrom_nil]
+    cases found <;> simp [mutRange]
+  · rename_i c r' ih
+    intro o rest found idx size h
+    rw [idxFrom_cons, List.cons_append]
+    simp only [mutRange]
+    rw [ih (o + 1) rest found idx _ h]
+    cases found
+    · simp
+    · simp only [↓reduceIte, List.length_cons]
+      congr 1; omega
+  · rename_i c r' ih
+    intro o rest found idx size h
+    rw [idxFrom_cons, List.cons_append]
+    simp only [mutRange]
+    rw [ih (o + 1) rest found idx _ h]
+    cases found
+    · simp
+    · simp only [↓reduceIte, List.length_cons]
+      congr 1; omega
+  · intro o rest found idx size h; simp at h
+
+theorem mutRange_vals (key : Bytes) (vals : List Event) (o : Nat) (rest : List (Nat × Event)) (found : Bool)
+    (idx size : Nat) (h : valsOk vals = true) :
+    mutRange key (idxFrom o vals ++ rest) found idx size =
+      mutRange key rest false idx (if found then size + vals.length else size) := by
+  unfold valsOk at h
+  split at h
+  · rw [idxFrom_cons, idxFrom_nil]
+    cases found <;> simp [mutRange]
+  · rename_i a r
+    rw [idxFrom_cons, List.cons_append]
+    simp only [mutRange]
+    rw [mutRange_cont key r (o + 1) rest found idx _ h]
+    cases found
+    · simp
+    · simp only [↓reduceIte, List.length_cons]
+      congr 1; omega
+  · simp at h
+
+/-- `(idx, size)` of the last item with the key, if any, else what was there -/
+def lastKv (key : Bytes) : List Item → Nat → Nat × Nat → Nat × Nat
+  | [], _, cur => cur
+  | .misc _ :: r, o, cur => lastKv key r (o + 1) cur
+  | .kv k mid vals :: r, o, cur =>
+    lastKv key r (o + (1 + mid.length + vals.length))
+      (if eqIgnoreCase k key then (o, 1 + mid.length + vals.length) else cur)
+
+/-- the forward scan of `raw_value_mut` on a well-formed body -/
+theorem mutRange_items (key : Bytes) : ∀ (is : List Item) (o : Nat) (rest : List (Nat × Event)) (idx size : Nat),
+    (∀ i ∈ is, i.ok = true) →
+    mutRange key (idxFrom o (flatten is) ++ rest) false idx size =
+      mutRange key rest false (lastKv key is o (idx, size)).1 (lastKv key is o (idx, size)).2 := by
+  intro is
+  induction is with
+  | nil => intro o rest idx size _; simp [flatten, idxFrom_nil, lastKv]
+  | cons it is ih =>
+    intro o rest idx size hok
+    have hrest : ∀ i ∈ is, i.ok = true := fun i hi => hok i (by simp [hi])
+    have hit := hok it (by simp)
+    have hfl : flatten (it :: is) = it.events ++ flatten is := by simp [flatten]
+    rw [hfl, idxFrom_append, List.append_assoc]
+    cases it with
+    | misc e =>
+      simp only [Item.ok] at hit
+      simp only [Item.events, idxFrom_cons, idxFrom_nil, List.cons_append, List.nil_append, List.length_cons,
+        List.length_nil, lastKv]
+      have : mutRange key ((o, e) :: (idxFrom (o + (0 + 1)) (flatten is) ++ rest)) false idx size =
+          mutRange key (idxFrom (o + 1) (flatten is) ++ rest) false idx size := by
+        cases e <;> simp [evIsWs, evIsNewline, isComment] at hit <;> simp [mutRange]
+      rw [this, ih (o + 1) rest idx size hrest]
+    | kv k mid vals =>
+      simp only [Item.ok, Bool.and_eq_true] at hit
+      have hev : (Item.kv k mid vals).events = [.name k] ++ (mid ++ vals) := by simp [Item.events]
+      have hlen : (Item.kv k mid vals).events.length = 1 + mid.length + vals.length := by
+        simp [Item.events]; omega
+      rw [hlen, hev, idxFrom_append, idxFrom_cons, idxFrom_nil, idxFrom_append]
+      simp only [List.cons_append, List.nil_append, List.append_assoc, List.length_cons, List.length_nil,
+        mutRange, lastKv]
+      by_cases hm : eqIgnoreCase k key = true
+      · simp only [hm, ↓reduceIte]
+        rw [mutRange_mid key mid _ _ true o 1 hit.1.1, mutRange_vals key vals _ _ true o _ hit.1.2]
+        simp only [↓reduceIte]
+        rw [ih _ rest o _ hrest]
+      · simp only [hm, Bool.false_eq_true, ↓reduceIte]
+        rw [mutRange_mid key mid _ _ false idx size hit.1.1, mutRange_vals key vals _ _ false idx _ hit.1.2]
+        simp only [Bool.false_eq_true, ↓reduceIte]
+        exact ih _ rest idx size hrest
+
+
+theorem lastKv_append (key : Bytes) : ∀ (a b : List Item) (o : Nat) (cur : Nat × Nat),
+    lastKv key (a ++ b) o cur = lastKv key b (o + (flatten a).length) (lastKv key a o cur) := by
+  intro a
+  induction a with
+  | nil => intro b o cur; simp [flatten, lastKv]
+  | cons it a ih =>
+    intro b o cur
+    cases it with
+    | misc e =>
+      simp only [List.cons_append, lastKv, ih]
+      congr 1
+      simp [flatten, Item.events]; omega
+    | kv k mid vals =>
+      simp only [List.cons_append, lastKv, ih]
+      congr 1
+      simp [flatten, Item.events]; omega
+
+theorem lastKv_nomatch (key : Bytes) : ∀ (l : List Item) (o : Nat) (cur : Nat × Nat),
+    (∀ it ∈ l, it.matches key = false) → lastKv key l o cur = cur := by
+  intro l
+  induction l with
+  | nil => intro o cur _; rfl
+  | cons it l ih =>
+    intro o cur h
+    have hr := ih
+    cases it with
+    | misc e => simp only [lastKv]; exact ih _ cur (fun x hx => h x (by simp [hx]))
+    | kv k mid vals =>
+      have hm : eqIgnoreCase k key = false := by simpa [Item.matches] using h (.kv k mid vals) (by simp)
+      simp only [lastKv, hm, Bool.false_eq_true, ↓reduceIte]
+      exact ih _ cur (fun x hx => h x (by simp [hx]))
+
+theorem lastKv_split (key : Bytes) (pre : List Item) (k : Bytes) (mid vals : List Event) (post : List Item)
+    (hk : eqIgnoreCase k key = true) (hpost : ∀ it ∈ post, it.matches key = false) (cur : Nat × Nat) :
+    lastKv key (pre ++ .kv k mid vals :: post) 0 cur = ((flatten pre).length, 1 + mid.length + vals.length) := by
+  rw [lastKv_append]
+  simp only [lastKv, hk, ↓reduceIte, Nat.zero_add]
+  exact lastKv_nomatch key post _ _ hpost
+
+/-- `ValueMut::set` (through `set_existing_raw_value`) on a well-formed body: either no item has the
+key (size 0: the section is skipped), or the LAST item with the key is rewritten as
+`key <separators> <escaped value>` and nothing else changes. -/
+theorem valueMutSet_items (w : Ws) (key value : Bytes) (is : List Item) (hok : ∀ i ∈ is, i.ok = true) :
+    ((mutRange key (indexed (flatten is)) false 0 0).2 = 0 ∧ ∀ it ∈ is, it.matches key = false) ∨
+    (∃ sp : KeySplit key is, (mutRange key (indexed (flatten is)) false 0 0).2 ≠ 0 ∧
+      valueMutSet w (flatten is) key value (mutRange key (indexed (flatten is)) false 0 0).1
+        (mutRange key (indexed (flatten is)) false 0 0).2 =
+      flatten (sp.pre ++ .kv key w.seps.reverse [.value (escapeValue value)] :: sp.post)) := by
+  have hscan := mutRange_items key is 0 [] 0 0 hok
+  simp only [List.append_nil, mutRange] at hscan
+  rw [indexed_eq_idxFrom, hscan]
+  rcases keyAndValueRange_wf key is hok with ⟨_, hall⟩ | ⟨sp, _⟩
+  · left
+    rw [lastKv_nomatch key is 0 (0, 0) hall]
+    exact ⟨rfl, hall⟩
+  · right
+    refine ⟨sp, ?_⟩
+    obtain ⟨pre, k, mid, vals, post, his, hk, hpost⟩ := sp
+    subst his
+    simp only
+    rw [lastKv_split key pre k mid vals post hk hpost]
+    refine ⟨by simp, ?_⟩
+    unfold valueMutSet
+    simp only
+    have hbody : flatten (pre ++ .kv k mid vals :: post) = flatten pre ++ ((.name k :: (mid ++ vals)) ++ flatten post) := by
+      simp [flatten, Item.events]
+    have hl : (flatten pre).length + (1 + mid.length + vals.length) =
+        (flatten pre).length + (Event.name k :: (mid ++ vals)).length := by simp; omega
+    rw [hbody, List.take_left, hl, ← List.drop_drop, List.drop_left, List.drop_left, List.take_left, List.drop_left]
+    simp [flatten, Item.events]
+
+theorem valueMutSet_step (key value : Bytes) (body : List Event)
+    (hsz : (mutRange key (indexed body) false 0 0).2 ≠ 0) :
+    BodyStep body (valueMutSet (Ws.fromBody body) body key value (mutRange key (indexed body) false 0 0).1
+      (mutRange key (indexed body) false 0 0).2) := by
+  intro hb
+  obtain ⟨is, hok, rfl⟩ := hb
+  rcases valueMutSet_items (Ws.fromBody (flatten is)) key value is hok with ⟨h0, _⟩ | ⟨sp, _, hsp⟩
+  · exact absurd h0 hsz
+  · rw [hsp]
+    obtain ⟨pre, k, mid, vals, post, his, hk, hpost⟩ := sp
+    subst his
+    simp only
+    have hok' : ∀ i ∈ pre ++ Item.kv key (Ws.fromBody (flatten (pre ++ Item.kv k mid vals :: post))).seps.reverse
+        [.value (escapeValue value)] :: post, i.ok = true := by
+      intro i hi
+      simp only [List.mem_append, List.mem_cons] at hi
+      rcases hi with hi | rfl | hi
+      · exact hok i (by simp [hi])
+      · have hs := seps_mid (Ws.fromBody (flatten (pre ++ Item.kv k mid vals :: post)))
+        simp only [Item.ok, Bool.and_eq_true, List.all_reverse, List.any_reverse]
+        exact ⟨⟨hs.1, rfl⟩, by simp [hs.2]⟩
+      · exact hok i (by simp [hi])
+    refine ⟨⟨_, hok', rfl⟩, ?_⟩
+    rw [comments_flatten _ hok', comments_flatten _ hok]
+    simp [itemComments]
 
 theorem newSection_body {f f' : FileS} {name : Bytes} {sub : Option Bytes} (h : newSection f name sub = .ok f') :
     ∃ s : Sec, f'.sections = f.sections ++ [s] ∧ WFb s.body ∧ commentsOf s.body = [] := by
@@ -452,12 +679,44 @@ theorem newSection_body {f f' : FileS} {name : Bytes} {sub : Option Bytes} (h : 
 /-- one successful in-scope call, at the level of bodies: one section's body makes a `BodyStep`
 (or only its header changes), or a well-formed comment-free section is appended (and possibly
 `set` into), or a section is removed -/
-theorem apply_step (f f' : FileS) (op : Op) (h : apply f op = .ok f') (hs : op.inScope = true) :
+theorem apply_step (f f' : FileS) (op : Op) (h : apply f op = .ok f') :
     (∃ i g, f'.sections = f.sections.modify i g ∧ ∀ s, BodyStep s.body (g s).body) ∨
     (∃ s, f'.sections = f.sections ++ [s] ∧ WFb s.body ∧ commentsOf s.body = []) ∨
     (op.isRemoveSection = true ∧ ∃ i, f'.sections = f.sections.eraseIdx i) := by
   cases op with
-  | setExisting sec sub key value => simp [Op.inScope] at hs
+  | setExisting sec sub key value =>
+    simp only [apply] at h
+    split at h
+    · simp at h
+    · rename_i ids _
+      split at h
+      · simp at h
+      · rename_i i hfind
+        simp only [Outcome.ok.injEq] at h; subst h
+        have hsz : (mutRange key (indexed (bodyAt f i)) false 0 0).2 ≠ 0 := by
+          have := List.find?_some hfind
+          simpa using this
+        left
+        refine ⟨i, fun (s : Sec) => if s.body = bodyAt f i then { s with body := valueMutSet (Ws.fromBody s.body) s.body key value (mutRange key (indexed (bodyAt f i)) false 0 0).1 (mutRange key (indexed (bodyAt f i)) false 0 0).2 } else s, ?_, ?_⟩
+        · simp only [modifySec_sections]
+          apply List.ext_getElem?
+          intro j
+          rw [List.getElem?_modify, List.getElem?_modify]
+          cases hj : f.sections[j]? with
+          | none => rfl
+          | some s =>
+            by_cases hij : i = j
+            · subst hij
+              have : bodyAt f i = s.body := by simp [bodyAt, hj]
+              simp [this]
+            · simp [hij]
+        · intro s
+          by_cases hsb : s.body = bodyAt f i
+          · simp only [hsb, ↓reduceIte]
+            have := valueMutSet_step key value (bodyAt f i) hsz
+            exact this
+          · simp only [hsb, ↓reduceIte]
+            intro hw; exact ⟨hw, rfl⟩
   | set sec sub key value =>
     simp only [apply] at h
     split at h
@@ -581,19 +840,18 @@ theorem mem_modify {α} (l : List α) (i : Nat) (g : α → α) (x : α) (h : x 
       exact Or.inl (hj ▸ hy)
 
 /-- ALL in-scope edit histories keep every body well formed -/
-theorem applyAll_wf : ∀ (ops : List Op) (f : FileS), (∀ op ∈ ops, op.inScope = true) →
+theorem applyAll_wf : ∀ (ops : List Op) (f : FileS),
     (∀ s ∈ f.sections, WFb s.body) → ∀ s ∈ (applyAll f ops).sections, WFb s.body := by
   intro ops
   induction ops with
-  | nil => intro f _ hw; exact hw
+  | nil => intro f hw; exact hw
   | cons op rest ih =>
-    intro f hsc hw
-    have hrest : ∀ o ∈ rest, o.inScope = true := fun o ho => hsc o (by simp [ho])
+    intro f hw
     simp only [applyAll]
     split
     · rename_i f1 h
-      apply ih f1 hrest
-      rcases apply_step f f1 op h (hsc op (by simp)) with ⟨i, g, hm, hg⟩ | ⟨s, ha, hws, _⟩ | ⟨_, i, he⟩
+      apply ih f1
+      rcases apply_step f f1 op h with ⟨i, g, hm, hg⟩ | ⟨s, ha, hws, _⟩ | ⟨_, i, he⟩
       · intro s hs
         rw [hm] at hs
         rcases mem_modify _ _ _ _ hs with h1 | ⟨y, hy, rfl⟩
@@ -607,7 +865,7 @@ theorem applyAll_wf : ∀ (ops : List Op) (f : FileS), (∀ op ∈ ops, op.inSco
       · intro x hx
         rw [he] at hx
         exact hw x (List.mem_of_mem_eraseIdx hx)
-    · exact ih f hrest hw
+    · exact ih f hw
 
 theorem map_modify_comments (l : List Sec) (i : Nat) (g : Sec → Sec) (hw : ∀ s ∈ l, WFb s.body)
     (hg : ∀ s, BodyStep s.body (g s).body) :
@@ -625,32 +883,31 @@ theorem map_modify_comments (l : List Sec) (i : Nat) (g : Sec → Sec) (hw : ∀
 
 /-- ALL in-scope edit histories without `remove_section` keep, for every section that was there at
 the start, exactly its comments, in order (sections added later come after them) -/
-theorem applyAll_comments : ∀ (ops : List Op) (f : FileS), (∀ op ∈ ops, op.inScope = true) →
+theorem applyAll_comments : ∀ (ops : List Op) (f : FileS),
     (∀ op ∈ ops, op.isRemoveSection = false) → (∀ s ∈ f.sections, WFb s.body) →
     (∀ s ∈ (applyAll f ops).sections, WFb s.body) ∧
     (applyAll f ops).comments.take f.sections.length = f.comments := by
   intro ops
   induction ops with
   | nil =>
-    intro f _ _ hw
+    intro f _ hw
     refine ⟨hw, ?_⟩
     simp only [applyAll, FileS.comments]
     exact List.take_of_length_le (by simp)
   | cons op rest ih =>
-    intro f hsc hnr hw
-    have hrest : ∀ o ∈ rest, o.inScope = true := fun o ho => hsc o (by simp [ho])
+    intro f hnr hw
     have hnrest : ∀ o ∈ rest, o.isRemoveSection = false := fun o ho => hnr o (by simp [ho])
     simp only [applyAll]
     split
     · rename_i f1 h
-      rcases apply_step f f1 op h (hsc op (by simp)) with ⟨i, g, hm, hg⟩ | ⟨s, ha, hws, hcs⟩ | ⟨hrm, _⟩
+      rcases apply_step f f1 op h with ⟨i, g, hm, hg⟩ | ⟨s, ha, hws, hcs⟩ | ⟨hrm, _⟩
       · have hw1 : ∀ s ∈ f1.sections, WFb s.body := by
           intro s hs
           rw [hm] at hs
           rcases mem_modify _ _ _ _ hs with h1 | ⟨y, hy, rfl⟩
           · exact hw s h1
           · exact (hg y (hw y hy)).1
-        obtain ⟨hwf, hc⟩ := ih f1 hrest hnrest hw1
+        obtain ⟨hwf, hc⟩ := ih f1 hnrest hw1
         refine ⟨hwf, ?_⟩
         have hlen : f1.sections.length = f.sections.length := by rw [hm, List.length_modify]
         rw [hlen] at hc
@@ -663,7 +920,7 @@ theorem applyAll_comments : ∀ (ops : List Op) (f : FileS), (∀ op ∈ ops, op
           rcases List.mem_append.mp hx with h1 | h1
           · exact hw x h1
           · simp at h1; subst h1; exact hws
-        obtain ⟨hwf, hc⟩ := ih f1 hrest hnrest hw1
+        obtain ⟨hwf, hc⟩ := ih f1 hnrest hw1
         refine ⟨hwf, ?_⟩
         have hlen : f1.sections.length = f.sections.length + 1 := by rw [ha]; simp
         have : (applyAll f1 rest).comments.take f.sections.length =
@@ -673,7 +930,7 @@ theorem applyAll_comments : ∀ (ops : List Op) (f : FileS), (∀ op ∈ ops, op
         simp [FileS.comments, ha]
       · have := hnr op (by simp)
         rw [this] at hrm; exact absurd hrm (by simp)
-    · exact ih f hrest hnrest hw
+    · exact ih f hnrest hw
 
 theorem load_foldl_bodies : ∀ (l : List Section) (acc : FileS),
     (l.foldl (fun acc s => register { acc with sections := acc.sections ++
